@@ -55,6 +55,9 @@ class Env:
         self.fixed_utcnow = None
         self.clock_tick = 0.0    # wall-clock time that passes between two consecutive clock reads
         self.procs = 0
+        # transfer block size of the repository layer (128 000 as shipped, or small enough for the
+        # objects of a simulated run to take several blocks)
+        self.block_size = substream(seed, 'block').choice([128_000, 128_000, 128_000, 1, 5, 64, 1000])
 
     def utcnow(self):
         if self.fixed_utcnow is not None:
@@ -370,6 +373,8 @@ def begin(sched, env):
     install_once()
     CTX.s = sched
     CTX.env = env
+    import replicat.repository as R
+    R.DEFAULT_STREAM_CHUNK_SIZE = getattr(env, 'block_size', 128_000)
     U._async_auth_glock = asyncio.Lock()
     U._async_auth_locks = weakref.WeakKeyDictionary()
     U._sync_auth_locks = weakref.WeakKeyDictionary()
